@@ -52,6 +52,9 @@ func place(p string, v interface{}) interface{} {
 		return StructA{X: v}
 	case "Map":
 		return map[string]interface{}{"k": v}
+	case "UField":
+		// an unexported field: reached by reflection only (no Interface())
+		return StructA{z: v}
 	// a reflect.Value operand stands for the value it holds: the wrapper
 	// directly, or an interface-typed slot holding the wrapper
 	case "RV":
@@ -211,6 +214,19 @@ func checkC06(s *C06Spec) Result {
 		if !alone.panicked && (!bytes.HasPrefix(rest, append(append([]byte(nil), head...), sep...)) || !bytes.HasSuffix(rest, []byte(c)) ||
 			len(bytes.Trim(rest[len(head)+len(sep):len(rest)-len(c)], "\n")) != 0) {
 			return fail("output %s: outside envelopes is %s; want %s + separator + line feeds only + %q (the wrapped value after a safe sibling)", q(got.out), q(rest), q(head), c)
+		}
+	}
+	// S2: Safe(x) adds no envelope wherever it sits, for x without a
+	// classification of its own and for x that is declared safe itself: the
+	// output has as many envelopes as the same container around Safe(1)
+	safeBasic := map[string]bool{"SafeString": true, "SafeInt": true, "SafeUint": true, "SafeFloat": true, "SafeRune": true, "svstr": true, "svint": true, "svfloat": true}
+	if s.Chain[0] == "safe" && !s.HasHook && verb != "p" && verb != "T" && ((fmtCompat && !classified && !reentrant) || safeBasic[s.X.K]) {
+		base := callRedact("Sprintf", d, []interface{}{place(s.Place, redact.Safe(1))})
+		// (after a caught method panic the rest of the directive loses its width
+		// and precision, as in fmt: the siblings' empty renderings then have no
+		// envelope at all)
+		if !base.panicked && !bytes.Contains(got.out, []byte("(PANIC=")) && bytes.Count(got.out, []byte(startS)) != bytes.Count(base.out, []byte(startS)) {
+			return fail("prints %s: %d envelopes, but the same container around Safe(1) prints %s", q(got.out), bytes.Count(got.out, []byte(startS)), q(base.out))
 		}
 	}
 	switch s.Chain[0] {
